@@ -18,7 +18,8 @@ import shutil
 import tempfile
 import time as _time
 
-from ..core import emit_behaviours, model_check, pool_map, sany, validate_traces
+from ..core import (MachineryError, emit_behaviours, model_check, pool_map, run_parallel, run_tlc, sany,
+                    validate_traces)
 from ..env import Conn, LoggerStub, boot
 
 META = {
@@ -42,6 +43,7 @@ META = {
 
 LEVELNO = {'debug': 10, 'comlog': 15, 'info': 20, 'warning': 30, 'error': 40}
 MODS = ['m1', 'm2']
+TMPBASE = '/dev/shm' if os.access('/dev/shm', os.W_OK | os.X_OK) else None     # thousands of small directory trees
 
 
 # ------------------------------------------------------------------ routing world
@@ -290,7 +292,7 @@ def _run_rotation(case):
     os.environ['TZ'] = 'UTC'
     _time.tzset()
     root = 'node'
-    d = tempfile.mkdtemp(prefix='rot-')
+    d = tempfile.mkdtemp(prefix='rot-', dir=TMPBASE)
     now = [DAY0 + (case['start'] - 1) * 86400]
 
     class T:
@@ -413,7 +415,7 @@ class SinkWorld:
         self.cfg = cfg
         self.modnames = list(mods)
         self.fl = fl
-        self.dir = tempfile.mkdtemp(prefix='sink-')
+        self.dir = tempfile.mkdtemp(prefix='sink-', dir=TMPBASE)
         self.logdir = os.path.join(self.dir, 'log')
         self.cwd = os.path.join(self.dir, 'cwd')          # a relative path would show up here
         os.makedirs(self.cwd)
@@ -421,6 +423,7 @@ class SinkWorld:
         self.day = 1
         self.stepno = 0
         self.errors = []
+        self.cur = None
 
         class T:
             """clock seen by mlzlog"""
@@ -560,7 +563,7 @@ class SinkWorld:
     def observe_sinks(self, logname, lvl, msg, comline):
         """which sinks got exactly the expected line since the last look"""
         import re
-        cur = self.scan()
+        cur = self.cur = self.scan()
         sinks = []
         for key, lines in sorted(cur.items(), key=str):
             new = lines[len(self.seen.get(key, ())):]
@@ -588,7 +591,7 @@ class SinkWorld:
         return sorted(sinks)
 
     def dated(self):
-        cur = self.scan()
+        cur = self.cur or self.scan()
         res = {f: [] for f in ['main', 'node'] + COMMODS}
         for key, lines in cur.items():
             if isinstance(key, tuple) and lines:      # an empty file holds no record
@@ -622,12 +625,13 @@ class SinkWorld:
         finally:
             sys.stderr = se
             if buf.getvalue():
-                self.errors.append([ln for ln in buf.getvalue().splitlines() if 'Error' in ln][-1:])
+                self.errors.append([ln for ln in buf.getvalue().splitlines() if ln[:1].isalpha() and 'Error' in ln][-1:])
 
     def _step(self, a):
         for c in self.conns.values():
             del c.msgs[:]
         self.stepno += 1
+        self.cur = None
         act = a.get('act') or a.get('ev')
         obs = {}
         if act == 'logging':
@@ -778,40 +782,77 @@ def _random_sink_trace(seed_n):
     return tr
 
 
+def _sig_sinks(bad):
+    return {'module': 'Logging', 'world': 'sinks', 'action': bad['action']['act'],
+            'diff': sorted(k for k in bad['expected'] if bad['expected'][k] != bad['observed'].get(k)),
+            'first_record_after_midnight': bad['first_record_after_midnight']}
+
+
+def _must_fail(cfg, invariant):
+    """no vacuity: a specification whose switch is broken must violate the invariant that speaks about it"""
+    r = run_tlc('Logging', cfg, timeout=300)
+    if r.violated != ('invariant', invariant):
+        raise MachineryError(f'{cfg} must violate {invariant}, TLC says {r.violated or r.error or "no violation"}')
+    return r
+
+
 def run(chk):
     quick = chk.tier == 'quick'
     chk.rule = ('routing: all action sequences of Gen_Logging to the depth bound (2 conns x 2 modules x '
                 'levels) replayed on the real dispatcher/handler with state comparison after every step, '
-                'plus random histories on 3 connections validated by Trace_Logging; rotation: all initial '
+                'plus random histories on 3 connections validated by Trace_Logging; local sinks: every '
+                'configuration (logfile_level / no logdir, console level, three comlog switches) x uniform '
+                'subscription table x record (module, main logger, comLog) of Gen_Logging_sinks, all sequences '
+                'of records and midnights of Gen_Logging_days under three retention settings, all sequences '
+                'of Gen_Logging_mixed (requests, records, midnight, re-creation of the modules) replayed on a '
+                'real MainLogger / node logger / Communicator in a temporary logdir comparing receivers, lines '
+                'per file and console, and the dated files after every step, plus random configurations and '
+                'histories validated by Trace_Logging; rotation: all initial '
                 'directories x retention x foreign files x rollover sequences of LogRotation executed on '
                 'the real LogfileHandler and validated by Trace_LogRotation. A case is distinct by its '
-                'action sequence / initial directory; non-trivial = contains at least one emit with an '
-                'enabled subscription or a rollover that may delete')
-    for m in ('Logging', 'LogRotation', 'Gen_Logging', 'Trace_Logging', 'Gen_LogRotation', 'Trace_LogRotation'):
-        sany(m)
+                'action sequence / configuration / initial directory; non-trivial = contains at least one emit with an '
+                'enabled subscription, a record reaching a file, or a rollover that may delete')
     import time as _t
     _t0 = _t.time()
     stage = {}
-    # 1 design check
-    chk.add_tlc(model_check('Logging', 'MC_Logging_quick.cfg' if quick else 'MC_Logging_thorough.cfg', timeout=900))
+    run_parallel([(lambda m=m: sany(m)) for m in ('Logging', 'LogRotation', 'Gen_Logging', 'Trace_Logging',
+                                                  'Gen_LogRotation', 'Trace_LogRotation')], width=6)
+    # 1 everything TLC does without the code, side by side: design checks (the specification's own properties, incl.
+    #   a configuration that must fail) and the emission of the behaviours to replay
+    tier = 'quick' if quick else 'thorough'
+    gen = lambda cfg, **kw: (lambda: emit_behaviours('Gen_Logging', cfg, maximal_only=False, timeout=1500, **kw))
+    jobs = {
+        'mc': lambda: model_check('Logging', f'MC_Logging_{tier}.cfg', timeout=900),
+        'mc_rot': lambda: model_check('LogRotation', 'MC_LogRotation.cfg', timeout=300),
+        'mc_sinks': lambda: model_check('Logging', f'MC_Logging_sinks_{tier}.cfg', timeout=1500),
+        'mc_days': lambda: model_check('Logging', f'MC_Logging_days_{tier}.cfg', timeout=1500),
+        'mustfail': lambda: _must_fail('MC_Logging_mustfail_comlog.cfg', 'ComlogNeverInMainFile'),
+        'gen': gen(f'Gen_Logging_{tier}.cfg'),
+        'gen_sinks': gen(f'Gen_Logging_sinks_{tier}.cfg'),
+        'gen_days': gen(f'Gen_Logging_days_{tier}.cfg'),
+        'gen_mixed': gen(f'Gen_Logging_mixed_{tier}.cfg'),
+        'gen_rot': lambda: emit_behaviours('Gen_LogRotation', f'Gen_LogRotation_{tier}.cfg', maximal_only=False,
+                                           timeout=600),
+    }
     if not quick:
-        chk.add_tlc(model_check('Logging', 'MC_Logging_levels.cfg', timeout=900))      # all six levels, two connections
-    chk.add_tlc(model_check('LogRotation', 'MC_LogRotation.cfg', timeout=300))
+        jobs['mc_levels'] = lambda: model_check('Logging', 'MC_Logging_levels.cfg', timeout=900)  # six levels, two connections
+        jobs['gen_sim'] = gen('Gen_Logging_sim.cfg', simulate='num=20000', depth=7, seed=chk.seed + 1, workers=1)
+        jobs['gen_sinks2'] = gen('Gen_Logging_sinks2_thorough.cfg')
+        jobs['gen_sinksim'] = gen('Gen_Logging_sinksim.cfg', simulate='num=20000', depth=9, seed=chk.seed + 2, workers=1)
+    tlc = dict(zip(jobs, run_parallel(list(jobs.values()), width=8)))
+    for k, r in tlc.items():
+        chk.add_tlc(r[0] if isinstance(r, tuple) else r)
+    stage['design+emission'] = round(_t.time() - _t0, 1)
 
-    stage['design'] = round(_t.time() - _t0, 1)
     # 2 spec -> code, routing
-    r, behs = emit_behaviours('Gen_Logging', 'Gen_Logging_quick.cfg' if quick else 'Gen_Logging_thorough.cfg',
-                              maximal_only=False, timeout=900)
-    chk.add_tlc(r)
+    behs = tlc['gen'][1]
     if quick:
         # the quick tier replays every third behaviour (offset by the seed); thorough replays all, over four levels,
         # plus simulated behaviours of depth 6 (the exhaustive set of depth 4 has 2.3 million members)
         behs = behs[chk.seed % 3::3]
         chk.notes['routing_behaviours_sampled'] = '1 of 3'
     else:
-        r2, deep = emit_behaviours('Gen_Logging', 'Gen_Logging_sim.cfg', maximal_only=False, timeout=900,
-                                   simulate='num=20000', depth=7, seed=chk.seed + 1, workers=1)
-        chk.add_tlc(r2)
+        deep = tlc['gen_sim'][1]
         behs = behs + deep
         chk.notes['routing_behaviours_simulated_depth6'] = len(deep)
     res = pool_map(_replay_routing, behs)
@@ -826,14 +867,58 @@ def run(chk):
             chk.violation(sig, {'behaviour': acts, **bad})
     if behs:
         chk.sample({'routing_behaviour': behs[len(behs) // 2]})
-
     stage['replay'] = round(_t.time() - _t0, 1)
-    # 3 code -> spec, routing
+
+    # 2b spec -> code, local sinks
+    sbehs = []
+    for k in ('gen_sinks', 'gen_days', 'gen_mixed', 'gen_sinks2', 'gen_sinksim'):
+        if k in tlc:
+            chk.notes['sink_behaviours_' + k[4:]] = len(tlc[k][1])
+            sbehs += tlc[k][1]
+    res = pool_map(_replay_sinks, sbehs)
+    nbad = 0
+    for beh, bad in zip(sbehs, res):
+        chk.impl_traces += 1
+        acts = beh[:1] + [{k: v for k, v in s.items() if k != 'exp'} for s in beh[1:]]
+        nontriv = any(set(s['exp']['last'].get('sinks', ())) - {'console'} for s in beh)
+        chk.case('sinks' + json.dumps(acts, sort_keys=True), nontriv)
+        if bad:
+            nbad += 1
+            chk.violation(_sig_sinks(bad), {'sink_behaviour': acts, **bad})
+    chk.notes['sink_behaviours_not_reproduced'] = nbad
+    if sbehs:
+        chk.sample({'sink_behaviour': sbehs[len(sbehs) // 2]})
+    stage['replay_sinks'] = round(_t.time() - _t0, 1)
+
+    # 3 code -> spec, routing and local sinks
     n = 300 if quick else 3000
+    ns = 300 if quick else 4000
     traces = pool_map(_random_trace, [(chk.seed * 100003 + i, 40) for i in range(n)])
-    verdicts, st, tr = validate_traces('Trace_Logging', traces, 'Trace_Logging.cfg')
+    straces = pool_map(_random_sink_trace, [(chk.seed * 100019 + i, 30 if quick else 45) for i in range(ns)])
+    traces = traces + straces
+    # no vacuity: an observation that is wrong in one sink must be refused
+    forged = []
+    for tr in straces:
+        k = [i for i, e in enumerate(tr) if e['ev'] == 'comlog' and 'node' not in e['sinks']]
+        if k and len(forged) < 3:
+            f = json.loads(json.dumps(tr[:k[0] + 1]))
+            if len(forged) == 0:
+                f[-1]['sinks'] = sorted(f[-1]['sinks'] + ['node'])            # communication in the log file
+            elif len(forged) == 1:
+                f[-1]['sinks'] = sorted(set(f[-1]['sinks']) ^ {'m1'})          # comlog line missing / unexpected
+            else:
+                f[-1]['sinks'] = sorted(set(f[-1]['sinks']) ^ {'console'})     # console threshold ignored
+            forged.append(f)
+    verdicts, st, tr, extra = validate_traces('Trace_Logging', traces + forged, 'Trace_Logging.cfg', collect=('DEVS',))
     chk.states += st
     chk.transitions += tr
+    if len(forged) < 3 or any(verdicts.pop(len(traces) + j) is None for j in range(len(forged))):
+        raise MachineryError('Trace_Logging accepts a forged observation of the local sinks (or none could be forged)')
+    devs = {}
+    for i, js in extra['DEVS']:
+        d = set(json.loads(js))
+        devs[i] = d if i not in devs else min(devs[i], d, key=len)
+    count = {}
     for i, v in verdicts.items():
         chk.impl_traces += 1
         chk.case('rt%d' % i, True)
@@ -842,7 +927,12 @@ def run(chk):
             ev = traces[i][l - 1] if 0 < l <= len(traces[i]) else None
             chk.violation({'module': 'Logging', 'trace_event': (ev or {}).get('ev'), 'clause': v[1]},
                           {'trace': traces[i], 'failed_at': l, 'event': ev})
+        for dev in sorted(devs.get(i, ())):
+            count[dev] = count.get(dev, 0) + 1
+            chk.violation({'module': 'Logging', 'deviation': dev}, {'sink_trace': traces[i]})
+    chk.notes['sink_trace_deviations_needed'] = count
     chk.sample({'routing_trace_prefix': traces[0][:4]})
+    chk.sample({'sink_trace_prefix': straces[0][:5]})
 
     stage['random'] = round(_t.time() - _t0, 1)
     # 3b concurrent connections: requests in different threads, disconnect outside the dispatcher lock,
@@ -879,9 +969,7 @@ def run(chk):
 
     stage['conc'] = round(_t.time() - _t0, 1)
     # 4 rotation: spec -> code cases, judged by the trace spec
-    r, behs = emit_behaviours('Gen_LogRotation', 'Gen_LogRotation_quick.cfg' if quick else 'Gen_LogRotation_thorough.cfg',
-                              maximal_only=False, timeout=600)
-    chk.add_tlc(r)
+    behs = tlc['gen_rot'][1]
     cases = {}
     for b in behs:
         c = {'n': b['n'], 'start': b['start'], 'days': sorted(b['days']), 'foreign': sorted(b['foreign']),
@@ -940,6 +1028,24 @@ def replay(chk, rep):
         for s in beh:
             print(s, '->', w.step(s))
         print('expected at step', d['step'], ':', d['expected'])
+    elif 'sink_behaviour' in d or 'sink_trace' in d:
+        beh = d.get('sink_behaviour') or d['sink_trace']
+        if 'sink_trace' in d:
+            mods, conns, table = MODS, ['c1', 'c2', 'c3'], {}
+        else:
+            table = beh[0]['exp']['level']
+            mods = sorted(table)
+            conns = sorted(table[mods[0]])
+        w = SinkWorld(beh[0]['cfg'], mods, conns)
+        try:
+            w.install(table)
+            for s in beh:
+                print({k: v for k, v in s.items() if k in ('act', 'ev', 'cfg', 'conn', 'target', 'lvl', 'mod')}, '->', w.step(s))
+            print('what the logging package printed about failing handlers:', w.errors)
+        finally:
+            w.close()
+        if 'expected' in d:
+            print('expected at step', d['step'], ':', d['expected'])
     elif 'case' in d:
         for e in _run_rotation(d['case']):
             print(e)
